@@ -159,7 +159,7 @@ int sm4_ccm_decrypt(const SM4_KEY *sm4_key, const uint8_t *iv, size_t ivlen,
 	}
 
 	inlen_size = 15 - ivlen;
-	if (inlen_size < 8 && inlen >= (size_t)(1 << (inlen_size * 8))) {
+	if (inlen_size < 8 && inlen >= ((size_t)1 << (inlen_size * 8))) {
 		error_print();
 		return -1;
 	}
